@@ -161,6 +161,19 @@ func (w *world) monitor(op Op, cls Class, err error, p *pre, before, after *snap
 		if !vecEq(before.tsup, after.tsup) || !vecEq(before.tbor, after.tbor) || !vecEq(before.tres, after.tres) {
 			return "failed-op-no-change", "failed-op-changed-state", "totals"
 		}
+		// C02 side finding, reported under its own signature: a borrow that takes reserve coins
+		// (accepted when cash == reserves exactly, because Coins.IsAnyGT skips a zero amount on the
+		// other side) leaves cash + borrows == reserves with borrows > 0, and the next accruing
+		// begin block divides by zero in CalculateUtilizationRatio
+		if op.Kind == "block" && cls == ClassPanic {
+			for d := 0; d < nMkt; d++ {
+				if before.tbor[d].Sign() != 0 && new(big.Int).Add(before.bal[hardAcc][d], before.tbor[d]).Cmp(before.tres[d]) == 0 {
+					return "begin-blocker-does-not-panic", "beginblocker-division-by-zero-cash-plus-borrows-equals-reserves",
+						fmt.Sprintf("hard.BeginBlocker panics (%v): denom %s cash %s + borrowed %s = reserves %s", err, denoms[d], before.bal[hardAcc][d], before.tbor[d], before.tres[d])
+				}
+			}
+			return "begin-blocker-does-not-panic", "beginblocker-panics", fmt.Sprintf("hard.BeginBlocker panics: %v", err)
+		}
 		// a user whose stored supply index fell below one can no longer touch the deposit at all
 		if isMsg && cls == ClassPanic && err != nil && strings.Contains(err.Error(), "interest factor") && strings.Contains(err.Error(), "< 1") {
 			return "deposit-remains-claimable", "position-locked-supply-index-below-one",
@@ -450,8 +463,8 @@ var allSplits = []string{
 	"sync:supply-interest-positive", "sync:borrow-interest-positive",
 	"liq:refused-within-ltv", "liq:ok", "liq:auction-started", "liq:several-auctions", "liq:rest-stays-no-cash", "liq:deposit-returned-to-borrower",
 	"liq:keeper-is-borrower", "liq:multi-denom-position",
-	"accrue:interest-positive", "accrue:skipped-rounds-to-zero", "accrue:supply-factor-below-one", "accrue:dt-zero",
-	"msg:malformed-refused", "price:none",
+	"accrue:interest-positive", "accrue:skipped-rounds-to-zero", "accrue:reserves-exceed-cash-plus-borrows", "accrue:dt-zero",
+	"msg:malformed-refused", "price:none", "borrow:takes-reserve-coins",
 }
 
 func (w *world) countSplits(op Op, cls Class, p *pre, before, after *snap, splits map[string]bool, cnt *Counters) {
@@ -479,6 +492,13 @@ func (w *world) countSplits(op Op, cls Class, p *pre, before, after *snap, split
 		}
 		if before.bor[p.target] != nil && !vecEq(before.bor[p.target].amt, p.bor) && op.Kind != "deposit" {
 			mark("sync:borrow-interest-positive")
+		}
+	}
+	if op.Kind == "borrow" && ok {
+		for d := 0; d < nMkt; d++ {
+			if coins[d].Sign() > 0 && after.bal[hardAcc][d].Cmp(after.tres[d]) < 0 {
+				mark("borrow:takes-reserve-coins")
+			}
 		}
 	}
 	switch op.Kind {
@@ -561,8 +581,8 @@ func (w *world) countSplits(op Op, cls Class, p *pre, before, after *snap, split
 					before.prev[d] != nil && after.prev[d] != nil && before.prev[d].Cmp(after.prev[d]) == 0 {
 					mark("accrue:skipped-rounds-to-zero")
 				}
-				if before.sfac[d] != nil && after.sfac[d] != nil && after.sfac[d].Cmp(before.sfac[d]) < 0 {
-					mark("accrue:supply-factor-below-one")
+				if w.reservesExceed(before, d) && after.tbor[d].Cmp(before.tbor[d]) > 0 {
+					mark("accrue:reserves-exceed-cash-plus-borrows")
 				}
 			}
 		}
